@@ -8,7 +8,7 @@ def eval (s : Store) : Expr → Except Err Val
   | .int n => .ok (.int n)
   | .bool b => .ok (.bool b)
   | .var x => match s.get x with | some v => .ok v | none => .error .nameError
-  | .bin op a b => do let x ← eval s a; let y ← eval s b; pure (op.pyVal x y)
+  | .bin op a b => do let x ← eval s a; let y ← eval s b; op.pyEval x y
   | .neg a => do let x ← eval s a; pure (.int (-x.toInt))
   | .cmp op a b => do let x ← eval s a; let y ← eval s b; pure (.bool (op.eval x.toInt y.toInt))
   | .and a b => do let x ← eval s a; if x.truthy then eval s b else pure x
@@ -44,7 +44,8 @@ def exec : Nat → Stmt → St → Except Err St
     | .aug x op e => do
       let cur ← eval st.store (.var x)
       let v ← eval st.store e
-      pure { st with store := st.store.set x (op.pyVal cur v) }
+      let r ← op.pyEval cur v
+      pure { st with store := st.store.set x r }
     | .ifs c thn els => do
       let v ← eval st.store c
       if v.truthy then exec fuel thn st else exec fuel els st
